@@ -17,9 +17,9 @@ NA = {
 CHECKS = {
     "C16": {
         "category": "model_checking",
-        "technique": "bounded Kani harnesses on the real MsgHdrBorrow::control_messages / ControlMessageIterator (cmsg macros) under CBMC's pointer checks; control buffers as exactly-sized objects so that any read outside the supplied buffer is a failed check",
-        "text": "PARTIAL and bounded — the ancillary-data clause only: for control buffers that one SCM_RIGHTS message with 0, 1 or 2 descriptors fills exactly, for two messages back to back, and for arbitrary bytes under the kernel's record contract with every supplied length 0..=40, the walk yields exactly the SCM_RIGHTS messages in the buffer, in order, with exactly their descriptors, never dereferences or yields anything outside the supplied buffer, and never panics. Stream delivery, ordering, blocking, timeouts, try-variants and the kernel's side of sendmsg/recvmsg are kernel behaviour and wall-clock: not decided.",
-        "note": "One clause of C16; everything about schedules, payload sizes and timing is outside what contracts on this code decide. Bounds: buffers <= 48 bytes, <= 2 messages, <= 2 descriptors. The check found the addr_of! defect in cmsg_nxthdr!/__mhdr_end! (fixed in 912e1c2).",
+        "technique": "bounded Kani harnesses on the real MsgHdrBorrow::control_messages / ControlMessageIterator (cmsg macros) under CBMC's pointer checks; control buffers as exactly-sized objects so that any read outside the supplied buffer is a failed check; bounded Kani harnesses on the real UnixStream::write / read (sock.rs wait-for-readiness step) with every system-call answer symbolic, postconditions over the stub kernel's call trace",
+        "text": "PARTIAL and bounded — (a) the ancillary-data clause: for control buffers that one SCM_RIGHTS message with 0, 1 or 2 descriptors fills exactly, for two messages back to back, and for arbitrary bytes under the kernel's record contract with every supplied length 0..=40, the walk yields exactly the SCM_RIGHTS messages in the buffer, in order, with exactly their descriptors, never dereferences or yields anything outside the supplied buffer, and never panics; (b) the code's share of 'bytes reach the peer complete ... when the operation must wait for readiness': UnixStream::write / read report to the caller exactly the count of the kernel's own write/read — the first attempt's if it was ready, otherwise, after ppoll (repeated only on EINTR), that of the one retried call with the same descriptor, buffer and length; Timeout only after ppoll answered 0; every other kernel error passed on — for every combination of system-call answers (<= 3 ppoll calls). What the kernel does with accepted bytes (delivery, ordering, blocking, wall-clock timeouts), try-variants and the kernel's side of sendmsg/recvmsg: not decided.",
+        "note": "One clause of C16 plus one per-call contract of another; everything about schedules, payload sizes and timing is outside what contracts on this code decide. Bounds: buffers <= 48 bytes, <= 2 messages, <= 2 descriptors. The check found the addr_of! defect in cmsg_nxthdr!/__mhdr_end! (fixed in 912e1c2).",
         "design_ref": "§4.C16, §9.7",
     },
     "C08": {
@@ -45,9 +45,9 @@ CHECKS = {
     },
     "C14": {
         "category": "model_checking",
-        "technique": "bounded Kani harnesses on the real create_dir_all / ReadDir / File::copy with a ghost path log, a scripted getdents64 stream and symbolic copy_file_range counts in the stub kernel (postconditions over the trace); Verus contract on the OpenOptions flag mapping",
-        "text": "Bounded, partial: (a) create_dir_all for every path of 1..4 (thorough: 1..5) bytes over {a,/} — relative/absolute, single component, repeated and trailing separators — with every mkdir answer symbolic (created, EEXIST, ENOENT, any errno): Ok implies the kernel was asked to create the leaf and answered created-or-exists (so, by mkdir's contract, it and its ancestors exist), Err carries the last mkdir's errno; an existing component never makes it fail; (b) ReadDir over a symbolic well-formed getdents64 stream delivered in one or two kernel batches: each record yielded exactly once, in order, with exact NUL-terminated name and type, then end of stream; (c) File::copy for every sequence of copy_file_range answers: destination created+truncated, offsets passed by pointer, exactly the remaining bytes requested, loop ends at st_size or on 0, errors propagate; (d) Verus, unbounded: OpenOptions -> open flag word equals std's documented mapping for all option combinations; Dirent::try_from_bytes under the kernel's record contract for names of any length up to 255 (exact name bytes, NUL padded, exact type/reclen/ino/off, every unchecked access in range, layout constants proved) and DirEntry::file_unix_name (the name handed to openat/unlinkat is the record's name plus one NUL). Content equality after write/copy, remove_dir_all (measured: no verdict, DESIGN §9.5) and symlink behaviour are not decided.",
-        "note": "NOT decided: content equality after write/read/copy, remove_dir_all's effect on the tree, symlinks, File::copy's loop (const fat pointer limit), paths > 5 bytes incl. the 512-byte heap path. Kernel semantics are not modelled beyond mkdir answers and the getdents64 record format.",
+        "technique": "bounded Kani harnesses on the real create_dir_all / ReadDir / File::copy with a ghost path log, a scripted getdents64 stream and symbolic copy_file_range counts in the stub kernel (postconditions over the trace); Verus contracts (unbounded) on File::copy against a ghost kernel holding source and destination bytes, on the OpenOptions flag mapping and on the Dirent record parser",
+        "text": "Bounded, partial: (a) create_dir_all for every path of 1..4 (thorough: 1..5) bytes over {a,/} — relative/absolute, single component, repeated and trailing separators — with every mkdir answer symbolic (created, EEXIST, ENOENT, any errno): Ok implies the kernel was asked to create the leaf and answered created-or-exists (so, by mkdir's contract, it and its ancestors exist), Err carries the last mkdir's errno; an existing component never makes it fail; (b) ReadDir over a symbolic well-formed getdents64 stream delivered in one or two kernel batches: each record yielded exactly once, in order, with exact NUL-terminated name and type, then end of stream; (c) File::copy for every sequence of copy_file_range answers: destination created+truncated, offsets passed by pointer, exactly the remaining bytes requested, loop ends at st_size or on 0, errors propagate; (d) Verus, unbounded: OpenOptions -> open flag word equals std's documented mapping for all option combinations; Dirent::try_from_bytes under the kernel's record contract for names of any length up to 255 (exact name bytes, NUL padded, exact type/reclen/ino/off, every unchecked access in range, layout constants proved) and DirEntry::file_unix_name (the name handed to openat/unlinkat is the record's name plus one NUL); File::copy, body verbatim, against a ghost kernel (source bytes, destination bytes) under a stated kernel contract for fstat / open / copy_file_range: for a source of any size and any sequence of short transfers, Ok implies the destination holds exactly the source's bytes whatever it held before (loop invariant dst == src[..offset]; termination of the loop included). Content equality after write/read, remove_dir_all (measured: no verdict, DESIGN §9.5) and symlink behaviour are not decided.",
+        "note": "NOT decided: content equality after write/read (kernel), remove_dir_all's effect on the tree, symlinks; File::copy is decided only relative to the trusted kernel contract of its three calls (source and destination distinct files, source unchanged during the copy); paths > 5 bytes incl. the 512-byte heap path. Kernel semantics are not modelled beyond mkdir answers and the getdents64 record format.",
         "design_ref": "§4.C14",
     },
     "C13": {
